@@ -130,9 +130,9 @@ func c20Replay(i int, raw json.RawMessage) Result {
 		exp := now + int64(realDelta)
 		std := []string{tokens.Gen, tokens.UserPrefix + r.User, tokens.TimePrefix + strconv.FormatInt(exp, 10)}
 		bin := c20Mint(key, r.User, std)
-		other := "@alice:example.org"
+		other := "@bob:example.org"
 		if r.User == other {
-			other = "@bob:example.org"
+			other = "@alice:example.org"
 		}
 		for _, k := range r.Altered {
 			switch k {
